@@ -287,6 +287,9 @@ def run(chk):
     chk.extra["passwords"] = len({e["pw"] for e in flat})
     chk.extra["entry_points"] = sorted({e["via"] for e in flat})
     chk.extra["packages_known_byte_for_byte"] = len([e for e in flat if e["ref_sha"] == e["ref2_sha"]])
+    fit = [(c["saves"][0]["fit"], evs[0]["ref_len"]) for c, evs in zip(cases, events) if c["origin"] == "writer-fit"]
+    chk.extra["writer_packages_steered_to_boundary"] = f"{sum(1 for f, n in fit if n % f['m'] == f['r'])} of {len(fit)}"
+    chk.extra["streams_in_output"] = sorted({",".join(e["streams"]) for e in flat})
     chk.rule = ("one evaluation = one encrypted file opened by the independent decryptor (+ one per wrong password tried "
                 "on it); files come from every TLC history of MC_Agile_replay.cfg, boundary sizes around 16 and 4096 "
                 "multiples through set_password, both workbook writers with the package length steered to block/segment "
@@ -305,8 +308,11 @@ def run(chk):
         "model and concrete (the verifier equation really fails) on every written file for 2-4 near-miss passwords",
         "freshness is judged as distinctness of the five random values across all saves of a trace (within one process and "
         "across driver processes); unpredictability of getrandom is not examined",
-        "write_with_password: the package is write_writer of the same workbook before/after the save; for workbooks with "
-        "shared strings saving is not pure (C12), then parts that are stable across the two references are compared",
+        "write_with_password(_light): the unencrypted package is write_writer(_light) of the same workbook, taken before "
+        "and after the encrypted save; when the two differ (a save that is not pure, cf. C12) only the parts that are "
+        "identical in both references are compared and the archive must end exactly at the declared length",
+        "the \\x06DataSpaces storage that Office writes next to EncryptionInfo/EncryptedPackage is not part of the "
+        "statement and is not demanded (the library does not write it; see coverage.streams_in_output)",
         "TLC's Json module and the pydec compound-file / EncryptionInfo parsers are correct",
     ]
 
